@@ -1,4 +1,5 @@
 import Rain.Lru
+import Rain.CacheKeys
 namespace Rain.Driver
 open Rain.Lru
 
@@ -13,7 +14,22 @@ def parseLruOp (s : String) : Option Op :=
   | ["r", k] => k.toNat?.map .remove
   | _ => none
 
+/-- `lru.ids <step>...` with step = `o:<instance>:<file>` (a table is opened) | `t` (an id is
+taken): the partition ids of the opened tables in order, joined by `,` (`-` = none), on a fresh
+block cache -/
+def parseKeyStep (s : String) : Option Rain.CacheKeys.Step :=
+  match s.splitOn ":" with
+  | ["o", i, f] => match i.toNat?, f.toNat? with
+    | some i, some f => some (.openTable i f)
+    | _, _ => none
+  | ["t"] => some .takeId
+  | _ => none
+
 def lruCmd : List String → Option String
+  | "lru.ids" :: steps =>
+    (steps.mapM parseKeyStep).map fun st =>
+      let r := (Rain.CacheKeys.run ({ lastId := 0 }, []) st).2
+      if r.isEmpty then "-" else ",".intercalate (r.map fun t => toString t.id)
   | "lru.run" :: cap :: ops =>
     match cap.toNat?, ops.mapM parseLruOp with
     | some c, some os =>
